@@ -163,17 +163,42 @@ def c05c(prog, R, rid="C05.c"):
     r = R.rule(rid, "nothing old is unlinked before the version without it is published", "O,W,K")
     upgraders = MustSet(prog, [A.UPGRADE, A.UPGRADE_SEQNO], "upgrade*")
     marks = prog.all_calls(A.TABLE_MARK_DELETED, A.BLOB_MARK_DELETED)
-    for mc in marks:
-        g = mc.fn
+
+    def ordered_after_upgrade(g, bb, depth=0):
+        """The site (g, bb) runs only after a successful upgrade: in g itself, or - when g is a helper / a closure
+        handed to some other call - at every place g is invoked from (two levels)."""
         ups = [c for c in g.calls if upgraders.call_in(c)]
-        key = "%s|upgrade=>%s" % (g.path, short(mc.sres))
-        good = False
         why = "no upgrade_version* call in the function"
         for uc in ups:
-            ok, why = success_ordered(g, uc, mc.bb)
+            ok, why = success_ordered(g, uc, bb)
             if ok:
-                good = True
-                break
+                return True, why
+        if ups or depth >= 2:
+            return False, why
+        sites = []
+        if g.kind == "closure":
+            parent = prog.fns.get(g.parent)
+            if parent is not None:
+                for c in parent.calls:
+                    if g.path in prog.callbacks(c):
+                        if c.is_to(A.UPGRADE, A.UPGRADE_SEQNO):
+                            return False, "runs inside the transition closure, i.e. before the new version is persisted"
+                        sites.append((parent, c.bb))
+        else:
+            for c in prog.all_calls(g.path):
+                sites.append((c.fn, c.bb))
+        if not sites:
+            return False, why
+        for (h, hb) in sites:
+            ok, w2 = ordered_after_upgrade(h, hb, depth + 1)
+            if not ok:
+                return False, "%s (via %s)" % (w2, h.path)
+        return True, "every invocation site is success-ordered after an upgrade"
+
+    for mc in marks:
+        g = mc.fn
+        key = "%s|upgrade=>%s" % (g.path, short(mc.sres))
+        good, why = ordered_after_upgrade(g, mc.bb)
         r.check(good, key, "mark_as_deleted is not success-ordered after a version upgrade: %s" % why, g.where(mc.bb), why)
     # remove_file census
     rm = prog.all_calls(A.REMOVE_FILE)
